@@ -136,7 +136,8 @@ func c05BodyM(n int, modes []sysMode) func(x *X) {
 		directIO := x.Choose(2) == 1
 		unknown := x.Choose(n+1) - 1 // position of a call to an unknown method (-1: none)
 		so := srvOpts{bufSize: 64, pipelining: true, directIO: directIO}
-		s := newSys(mode, so, cliOpts{bufSize: 64, pipelining: clientPipe})
+		cliDio := clientPipe && x.Choose(2) == 1 // client-side direct I/O together with client pipelining
+		s := newSys(mode, so, cliOpts{bufSize: 64, pipelining: clientPipe, directIO: cliDio})
 		f := &fixture{w: s.w, cl: s.cl, srv: s.srv, conn: s.conn, so: so}
 		c := c05IssueU(f, 1, n, unknown)
 		vs.Quiesce()
@@ -144,7 +145,7 @@ func c05BodyM(n int, modes []sysMode) func(x *X) {
 		if f.w.overlap > 0 {
 			x.Fail("C05/overlap", "%d handler executions of one pipelined connection overlapped", f.w.overlap)
 		}
-		x.Outcome("%s cp=%v dio=%v unk=%d %s overlap=%d", mode.name, clientPipe, directIO, unknown, out, f.w.overlap)
+		x.Outcome("%s cp=%v dio=%v cdio=%v unk=%d %s overlap=%d", mode.name, clientPipe, directIO, cliDio, unknown, out, f.w.overlap)
 		s.finish()
 	}
 }
